@@ -292,6 +292,13 @@ the height test alone, not by the syncing test — and `ApplyAndValidateBlock` d
 `ApplyBlock` (generated facts) -/
 theorem last_certificate_is_the_headers : indexesLastCertFact = true := by decide
 
+/-- `ProduceProposal` assigns every field of the cached proposal's header from its inputs (no `+=`,
+`++`, `x = x + …` on `p.Block.BlockHeader.*`): a cached mempool proposal served to several calls — a
+leader leading again at the same height — gives each call the header the model's `produce` has, a
+function of (committed state, block inputs) alone (generated fact; Go scenario
+`re-proposal-from-cached-proposal`) -/
+theorem proposal_header_assigned_from_inputs : headerAssignedFromInputsFact = true := by decide
+
 /-- non-vacuity: both former counterexample histories, on the repaired mechanism, end with the block
 applied (commit by replay): state 8 = 0 + 7 + 1 -/
 example :
